@@ -161,6 +161,9 @@ def Hist.cleanupStart (h : Hist) : Hist :=
   if rest.isEmpty then { h with packets := [], first := invalidPN }
   else { h with packets := rest, first := h.first + ((h.packets.length - rest.length : Nat) : Int) }
 
+/-- `if p.Outstanding() { h.numOutstanding-- }` -/
+def outAfter (n : Int) (p : Packet) : Int := if p.outstanding then n - 1 else n
+
 inductive RemoveRes
   | ok (h : Hist) (p : Packet)
   | notFound
@@ -175,11 +178,10 @@ def Hist.remove (h : Hist) (pn : PN) : RemoveRes :=
     match (h.packets[idx]?).join with
     | none => .panic .nilPacket            -- `p.Outstanding()` on a nil entry
     | some p =>
-      let n := if p.outstanding then h.numOutstanding - 1 else h.numOutstanding
-      if n < 0 then .panic .negativeOutstanding
+      if outAfter h.numOutstanding p < 0 then .panic .negativeOutstanding
       else
         let pk := h.packets.set idx none
-        let h1 : Hist := { h with packets := pk, numOutstanding := n }
+        let h1 : Hist := { h with packets := pk, numOutstanding := outAfter h.numOutstanding p }
         let h2 := if (pk.take idx).any Option.isSome then h1 else h1.cleanupStart
         match h2.packets with
         | none :: _ => .panic .cleanupFailed
@@ -198,10 +200,9 @@ def Hist.declareLost (h : Hist) (pn : PN) : LostRes :=
     match (h.packets[idx]?).join with
     | none => .panic .nilPacket
     | some p =>
-      let n := if p.outstanding then h.numOutstanding - 1 else h.numOutstanding
-      if n < 0 then .panic .negativeOutstanding
+      if outAfter h.numOutstanding p < 0 then .panic .negativeOutstanding
       else
-        let h1 : Hist := { h with packets := h.packets.set idx none, numOutstanding := n }
+        let h1 : Hist := { h with packets := h.packets.set idx none, numOutstanding := outAfter h.numOutstanding p }
         .ok (if idx = 0 then h1.cleanupStart else h1)
 
 /-- `RemovePathProbe` -/
